@@ -130,30 +130,45 @@ OracleAdmit(action, cls, user, pass, ip) ==
                       AI!GrantF(u.perms[j].action = action, TRUE, u.perms[j].kind, FALSE, u.perms[j].cls = cls),
                   u.user = "any", u.user = user /\ u.pass = pass)
 
-\* r: [proto, action, name, cls, user, pass, ip, events, attached]
+\* r: [proto, mode, place, action, name, cls, user, pass, ip, events, attached]
 \*   events: <<[op |-> "auth", action, path, user, pass, ip, ok]>> | [op |-> "reload", changes]
 \*   changes = the configuration the real path manager resolves r.name to after the reload differs from the
 \*   one before it (both obtained from the path manager itself, compared field by field by the harness)
 \*   in the order they happened before the attachment was looked up
-Qualifies(r, e) == e.op = "auth" /\ e.ok /\ e.action = r.action /\ e.path = r.name
-                   /\ e.user = r.user /\ e.pass = r.pass /\ e.ip = r.ip
+\* place: where the client put user and password: "native" (the protocol's own way), "basic" / "bearer"
+\* (Authorization: Basic, Authorization: Bearer user:pass) or "query" (?user=&pass= on an HTTP protocol: not a
+\* placement these endpoints define, so the statement is read both ways: these credentials / none).
+Readings(r) == {[user |-> r.user, pass |-> r.pass]} \cup (IF r.place = "query" THEN {[user |-> "", pass |-> ""]} ELSE {})
+Qualifies(r, e, rd) == e.op = "auth" /\ e.ok /\ e.action = r.action /\ e.path = r.name
+                       /\ e.user = rd.user /\ e.pass = rd.pass /\ e.ip = r.ip
 ScenarioOK(r) ==
     r.attached =>
-      /\ \E i \in 1..Len(r.events) : Qualifies(r, r.events[i])
-      /\ OracleAdmit(r.action, r.cls, r.user, r.pass, r.ip)
-      /\ r.action = "publish" =>
-           \E i \in 1..Len(r.events) :
-              /\ Qualifies(r, r.events[i])
-              /\ \A j \in (i + 1)..Len(r.events) : ~(r.events[j].op = "reload" /\ r.events[j].changes)
+      \E rd \in Readings(r) :
+        /\ \E i \in 1..Len(r.events) : Qualifies(r, r.events[i], rd)
+        /\ OracleAdmit(r.action, r.cls, rd.user, rd.pass, r.ip)
+        /\ r.action = "publish" =>
+             \E i \in 1..Len(r.events) :
+                /\ Qualifies(r, r.events[i], rd)
+                /\ \A j \in (i + 1)..Len(r.events) : ~(r.events[j].op = "reload" /\ r.events[j].changes)
 \* the real manager's answers agree with C01's statement (conformance of the wiring: DRIFT)
 AnswersAgree(r) ==
     \A i \in 1..Len(r.events) :
-        r.events[i].op = "auth" /\ r.events[i].path = r.name /\ r.events[i].user = r.user /\ r.events[i].pass = r.pass =>
+        r.events[i].op = "auth" /\ r.events[i].path = r.name =>
             r.events[i].ok = OracleAdmit(r.events[i].action, r.cls, r.events[i].user, r.events[i].pass, r.events[i].ip)
-\* layer 1's prediction of the outcome
+\* layer 1's prediction of the outcome: the code reads no credentials from the query of an HTTP protocol;
+\* a request that carries no valid offer (mode "http") never gets as far as an attachment
+CodeUser(r) == IF r.place = "query" THEN "" ELSE r.user
+CodePass(r) == IF r.place = "query" THEN "" ELSE r.pass
 ExpectAttached(r) ==
-    /\ OracleAdmit(r.action, r.cls, r.user, r.pass, r.ip)
+    /\ r.mode # "http"
+    /\ OracleAdmit(r.action, r.cls, CodeUser(r), CodePass(r), r.ip)
     /\ ~(r.action = "publish" /\ r.reload \in {"nonhot", "hot", "rehome"})
+\* layer 1: the handler asks the manager for exactly the scenario's action, path, IP and the credentials it reads
+AsksAsExpected(r) ==
+    \A i \in 1..Len(r.events) : r.events[i].op = "auth" /\ ~r.events[i].feed /\ r.events[i].proto = r.proto =>
+        /\ r.events[i].action = r.action /\ r.events[i].ip = r.ip
+        /\ \/ r.events[i].user = CodeUser(r) /\ r.events[i].pass = CodePass(r)
+           \/ r.events[i].user = "" /\ r.events[i].pass = ""      \* a first attempt before the credentials were asked for
 \* layer 1's prediction of what a reload of that kind does to the configuration in force
 ReloadsAsExpected(r) ==
     \A i \in 1..Len(r.events) : r.events[i].op = "reload" /\ ~r.events[i].prep =>
@@ -161,18 +176,26 @@ ReloadsAsExpected(r) ==
 
 \* generator: the scenario space
 \* pm: the harness calls the path manager directly (FindPathConf, then AddPublisher with ConfToCompare and skipAuth)
-Protos == {"rtsp", "rtmp", "srt", "hls", "pm"}
+\* mode: std  a real client of the protocol
+\*       http (webrtc) a WHIP / WHEP POST without a usable offer: the decision side only
+\*       full (webrtc) the repository's WHIP client over loopback ICE
+Protos == {"rtsp", "rtmp", "srt", "hls", "pm", "webrtc", "moq"}
 CredTok == {"alice", "puba", "reader", "dave", "bad", "none"}
 UserOf(c) == IF c = "none" THEN "" ELSE IF c = "bad" THEN "alice" ELSE c
 PassOf(c) == IF c = "none" THEN "" ELSE IF c = "bad" THEN "wrong" ELSE "pw"
+HTTPProtos == {"hls", "webrtc"}            \* behind the trusted proxy: the client IP is the forwarded one
 Scenarios ==
-    {x \in [proto : Protos, action : Actions, cred : CredTok, cls : {"a", "b"},
+    {x \in [proto : Protos, mode : {"std", "http", "full"}, place : {"native", "basic", "bearer", "query"},
+            action : Actions, cred : CredTok, cls : {"a", "b"},
             reload : {"none", "other", "nonhot", "hot", "rehome"}, ip : {"127.0.0.1", "10.0.0.5", "10.0.0.50", "10.0.1.5"}] :
         /\ (x.proto = "hls" => x.action = "read")
         /\ (x.proto = "pm" => x.action = "publish")
-        /\ (x.proto # "hls" => x.ip = "127.0.0.1")         \* only HTTP protocols sit behind the trusted proxy
-        /\ (x.proto = "hls" => x.ip # "127.0.0.1")
-        /\ (x.action = "read" => x.reload = "none")}
+        /\ (x.proto \in HTTPProtos <=> x.ip # "127.0.0.1")
+        /\ (x.proto = "webrtc" <=> x.mode # "std")
+        /\ (x.proto = "webrtc" <=> x.place # "native")
+        /\ (x.mode = "full" => x.place = "basic")
+        /\ (x.place \in {"bearer", "query"} => x.cls = "a")
+        /\ (x.action = "read" \/ x.mode = "http" \/ x.proto = "moq" => x.reload = "none")}
 ASSUME \A x \in Scenarios :
     Emit("SCEN", x @@ [user |-> UserOf(x.cred), pass |-> PassOf(x.cred),
                       admit |-> OracleAdmit(x.action, x.cls, UserOf(x.cred), PassOf(x.cred), x.ip)])
